@@ -141,3 +141,43 @@ Definition expected_events : list (string * list string * list string) := [
   ("return", [], [])
 ].
 Lemma tie_events : handleRequest_events = expected_events. Proof. reflexivity. Qed.
+
+(** ---- the short mutexes (fidMu: fid table, tagMu: tag table) ----
+    Every request takes them, so nothing that can block may run while one is held (Loop/FidMu.v: with such
+    critical sections a request gets the table after at most one step of another goroutine, whatever is blocked
+    in the backend; with a backend call inside one - DecRef -> File.Close - every other request of the connection
+    waits for the backend).  Semantic comparison: for EVERY function of package p9 that locks fidMu or tagMu, every
+    call made while it is held is one of the non-blocking ones below, and no channel operation / select / go
+    happens there.  IncRef is one atomic add.  Insensitive to local names, to the order of the functions and to
+    new critical sections that keep the rule. *)
+Definition nonblocking_call (c : string) : bool := smem c ["_.IncRef"; "make"; "delete"; "close"; "panic"; "len"].
+Definition sec_mu (x : string * string * list string) : string := fst (fst x).
+Definition sec_fn (x : string * string * list string) : string := snd (fst x).
+Definition sec_calls (x : string * string * list string) : list string := snd x.
+Definition short_sections_nonblocking : bool := forallb (fun x => forallb nonblocking_call (sec_calls x)) short_sections.
+(** the table is not vacuous: the three fid-table operations and the three tag-table operations are in it *)
+Definition has_section (mu fn : string) : bool := existsb (fun x => String.eqb (sec_mu x) mu && String.eqb (sec_fn x) fn) short_sections.
+Definition short_sections_present : bool :=
+  has_section "fidMu" "connState.LookupFID" && has_section "fidMu" "connState.InsertFID" && has_section "fidMu" "connState.DeleteFID" &&
+  has_section "tagMu" "connState.StartTag" && has_section "tagMu" "connState.ClearTag" && has_section "tagMu" "connState.TagDone".
+Lemma tie_short_sections_nonblocking : short_sections_nonblocking = true. Proof. vm_compute. reflexivity. Qed.
+Lemma tie_short_sections_present : short_sections_present = true. Proof. vm_compute. reflexivity. Qed.
+Lemma tie_IncRef : body_fidRef_IncRef = ["atomic.AddInt64(&t.refs, 1)"]. Proof. reflexivity. Qed.
+
+(** ---- the reply path ----
+    After handle returns, handleRequest does ClearTag, sendMu.Lock, send, sendMu.Unlock, put, return - each exactly
+    once and under NO condition: nothing (in particular no flush state) decides whether the reply is sent
+    (Loop/Variants.v: v_suppress = false; with a condition there the flushed request's reply can be lost). *)
+Fixpoint events_after (p : string * list string * list string -> bool) (evs : list (string * list string * list string)) :=
+  match evs with
+  | [] => []
+  | e :: r => if p e then r else events_after p r
+  end.
+Definition no_conds (e : string * list string * list string) : bool := match ev_conds e with [] => true | _ => false end.
+Definition list_eqb (a b : list string) : bool :=
+  Nat.eqb (List.length a) (List.length b) && forallb (fun p => String.eqb (fst p) (snd p)) (combine a b).
+Definition reply_path_unconditional : bool :=
+  let tl := events_after (is_ev "handle") handleRequest_events in
+  list_eqb (map ev_name tl) ["ClearTag"; "sendMu.Lock"; "send"; "sendMu.Unlock"; "put"; "return"] && forallb no_conds tl &&
+  forallb (fun e => if is_ev "handle" e then no_conds e else true) handleRequest_events.
+Lemma tie_reply_path_unconditional : reply_path_unconditional = true. Proof. vm_compute. reflexivity. Qed.
